@@ -330,7 +330,11 @@ class Engine:
         terms = []
         for f, fty in rty.fields.items():
             if f in vals:
-                terms.append(coerce(vals[f], fty).t)
+                v_ = vals[f]
+                if isinstance(v_.ty, TOpt) and not isinstance(fty, TOpt):
+                    # a possibly-None value stored in a field typed non-Optional: type-invariant obligation
+                    v_ = ev.unwrap_opt(v_, ctx, 'TypeError')
+                terms.append(coerce(v_, fty).t)
             elif isinstance(fty, TOpt):
                 terms.append(fty.none())     # dataclass default None
             else:
@@ -415,6 +419,19 @@ class Engine:
             ctx.assume(g)
         return res
 
+    def _close_assumes(self, ctx, start, zvars, excs_from=None):
+        names = {str(v) for v in zvars}
+        from .execute import _consts_of
+        for i in range(start, len(ctx.assumes)):
+            a = ctx.assumes[i]
+            if _consts_of(a) & names:
+                ctx.assumes[i] = z3.ForAll(list(zvars), a)
+        if excs_from is not None:
+            for i in range(excs_from, len(ctx.excs)):
+                cls, cond, line = ctx.excs[i]
+                if _consts_of(cond) & names:
+                    ctx.excs[i] = (cls, z3.Exists(list(zvars), cond), line)
+
     # ---- spec-only functions
     def spec_call(self, name, n, ctx, ev):
         if name in ('forall', 'exists'):
@@ -430,10 +447,12 @@ class Engine:
                 c = z3.Const(arg.arg, ty.sort())
                 vs.append(c)
                 ctx.env[arg.arg] = V(ty, c)
+            n_as = len(ctx.assumes)
             body = truthy(ev.ev(lam.body, ctx))
             ctx.env.clear()
             ctx.env.update(saved)
-            pats = []
+            # axioms instantiated for terms under the binder hold for every value of the bound variables
+            self._close_assumes(ctx, n_as, vs)
             return V(BOOL, (z3.ForAll if name == 'forall' else z3.Exists)(vs, body))
         if name == 'implies':
             a = truthy(ev.ev(n.args[0], ctx))
@@ -728,11 +747,13 @@ class Engine:
         """generator expression over ranges -> bag with exact multiplicity, provided the element expression is
         injective on the index domain (side obligation)."""
         saved_env = dict(ctx.env)
+        n_as, n_ex = len(ctx.assumes), len(ctx.excs)
         zvars, guards = self._comp_domain(n.generators, ctx, ev, None)
         saved_g = list(ctx.guards)
         ctx.guards.extend(guards)
         elt = ev.ev(n.elt, ctx)
         ctx.guards[:] = saved_g
+        self._close_assumes(ctx, n_as, zvars, n_ex)
         ctx.env.clear()
         ctx.env.update(saved_env)
         bt = TBag(elt.ty)
@@ -779,9 +800,11 @@ class Engine:
             ln = list_len(src)
             ctx.env[g.target.id] = list_at(src, k)
         saved_g = list(ctx.guards)
+        n_as, n_ex = len(ctx.assumes), len(ctx.excs)
         ctx.guards.extend([0 <= k, k < ln])
         elt = ev.ev(n.elt, ctx)
         ctx.guards[:] = saved_g
+        self._close_assumes(ctx, n_as, [k], n_ex)
         ctx.env.clear()
         ctx.env.update(saved_env)
         lt = TList(elt.ty)
